@@ -18,3 +18,11 @@ for t in TABLES:
     out[t] = {str(k): v.items[0] for k, v, _ in dv.items}
 json.dump(out, open(os.path.join(HERE, "pinned", "rc_tables.json"), "w"), indent=0, sort_keys=True)
 print("pinned rc tables", {t: len(v) for t, v in out.items()})
+# shape of the tree (functions, their locals, module-level names): the reference of the normaliser
+import ast
+from tpmsa import normalise
+os.environ["TPMSA_NO_NORMALISE"] = "1"
+p2 = Project(os.environ.get("VERIF_REPO", "/repo"))
+shape = {name: normalise.shape_of(m.tree) for name, m in sorted(p2.modules.items())}
+json.dump(shape, open(os.path.join(HERE, "pinned", "shape.json"), "w"), indent=0, sort_keys=True)
+print("pinned shape of", len(shape), "modules,", sum(len(v["functions"]) for v in shape.values()), "functions")
